@@ -1,4 +1,90 @@
+//! `parse` subcommand (property C19): parse / print / reparse round trips on boa_parser alone.
+
+use boa_ast::scope::Scope;
+use boa_interner::{Interner, ToInternedString};
+use boa_parser::{Parser, Source};
 use serde_json::{Value, json};
-pub fn run(_job: &Value) -> Value {
-    json!({"fatal": "parse: not built yet"})
+
+fn bytes_of(job: &Value) -> Vec<u8> {
+    if let Some(s) = job.get("src").and_then(Value::as_str) {
+        return s.as_bytes().to_vec();
+    }
+    if let Some(h) = job.get("src_hex").and_then(Value::as_str) {
+        return (0..h.len() / 2)
+            .map(|i| u8::from_str_radix(&h[2 * i..2 * i + 2], 16).unwrap_or(0))
+            .collect();
+    }
+    Vec::new()
+}
+
+fn utf16_to_string(u: &[u16]) -> String {
+    let mut out = String::new();
+    for r in char::decode_utf16(u.iter().copied()) {
+        match r {
+            Ok(c) => out.push(c),
+            Err(e) => out.push_str(&format!("\\u{:04X}", e.unpaired_surrogate())),
+        }
+    }
+    out
+}
+
+pub fn run(job: &Value) -> Value {
+    let bytes = bytes_of(job);
+    let module = job.get("goal").and_then(Value::as_str) == Some("module");
+    let strict = job.get("strict").and_then(Value::as_bool).unwrap_or(false);
+    let mut interner = Interner::default();
+
+    macro_rules! roundtrip {
+        ($parse:ident) => {{
+            let scope = Scope::new_global();
+            let mut parser = Parser::new(Source::from_bytes(&bytes));
+            if strict {
+                parser.set_strict();
+            }
+            match parser.$parse(&scope, &mut interner) {
+                Err(e) => json!({"ok": false, "err": e.to_string()}),
+                Ok(a1) => {
+                    let interned: Vec<String> = interner.verif_strings().iter().map(|u| utf16_to_string(u)).collect();
+                    let p1 = a1.to_interned_string(&interner);
+                    let scope2 = Scope::new_global();
+                    let mut parser2 = Parser::new(Source::from_bytes(p1.as_bytes()));
+                    if strict {
+                        parser2.set_strict();
+                    }
+                    match parser2.$parse(&scope2, &mut interner) {
+                        Err(e) => json!({"ok": true, "p1": p1, "interned": interned, "reparse_ok": false, "reparse_err": e.to_string()}),
+                        Ok(a2) => {
+                            let p2 = a2.to_interned_string(&interner);
+                            let scope3 = Scope::new_global();
+                            let mut parser3 = Parser::new(Source::from_bytes(p2.as_bytes()));
+                            if strict {
+                                parser3.set_strict();
+                            }
+                            let (third_ok, ast_equal) = match parser3.$parse(&scope3, &mut interner) {
+                                Ok(a3) => (true, a3 == a2),
+                                Err(_) => (false, false),
+                            };
+                            json!({"ok": true, "p1": p1, "interned": interned, "reparse_ok": true, "p2_equal": p1 == p2,
+                                   "p2": if p1 == p2 { Value::Null } else { Value::String(p2) },
+                                   "third_ok": third_ok, "ast_equal": ast_equal, "first_equal_second": a1 == a2})
+                        }
+                    }
+                }
+            }
+        }};
+    }
+    if module {
+        // boa_ast::Module has no printer: totality, error position and interning only
+        let scope = Scope::new_global();
+        let mut parser = Parser::new(Source::from_bytes(&bytes));
+        match parser.parse_module(&scope, &mut interner) {
+            Err(e) => json!({"ok": false, "err": e.to_string()}),
+            Ok(_) => {
+                let interned: Vec<String> = interner.verif_strings().iter().map(|u| utf16_to_string(u)).collect();
+                json!({"ok": true, "module": true, "interned": interned})
+            }
+        }
+    } else {
+        roundtrip!(parse_script)
+    }
 }
